@@ -294,7 +294,11 @@ class Program:
         key = c["key"]
         self.terms[key] = t
         self.term_key[tid] = key
-        common = ["desc(%s, reflect.TypeOf((*%s)(nil)).Elem())" % (json.dumps(tid), typexpr(t))]
+        if kind_of(t) == "interface":
+            common = ["desc(%s, reflect.TypeOf((*%s)(nil)).Elem())" % (json.dumps(tid), typexpr(t))]
+        else:
+            # through a value: *T is mentioned nowhere unless another term is *T, so PointerTo(T) has to find or build it
+            common = ["desc(%s, reflect.TypeOf(%sv0()))" % (json.dumps(tid), tid)]
         for q in c["q"]:
             self.exp(tid + "." + q["n"], q["r"], key, q["n"])
         per_variant = {v: [] for v in VARIANTS}
